@@ -19,7 +19,7 @@ Your task: write ONE realistic change to the repository's non-test Go code that 
   (2) the existing test suite still passes — at least run the tests of every package you touched and of the packages that most directly depend on them (`go test -count=1 <pkgs>`), and tell me exactly which ones you ran; do not edit or delete any existing test or testdata.
 The change should look like something a developer could plausibly commit (an optimisation, a refactoring slip, a mishandled corner case, a dropped lock or check, a reordered pair of operations) — not sabotage that any ordinary run would expose at once. Prefer a change that needs something SPECIFIC to manifest: a particular interleaving or timing, a crash or fault at a particular point, a multi-step sequence of operations, an unusual input shape, or two cooperating sites that each look fine alone.
 
-Also write a DEMONSTRATION: a new Go test file (preferred) or a small Go program / shell script inside the worktree that fails (or prints a visibly wrong result) WITH your change and passes WITHOUT it. Verify both directions yourself (`git stash` / `git stash pop`, or apply/reverse the diff).
+Also write a DEMONSTRATION: a new Go test file (preferred) or a small Go program / shell script inside the worktree that fails (or prints a visibly wrong result) WITH your change and passes WITHOUT it. Verify both directions yourself (save the diff, then `git apply -R` / `git apply` it; do NOT use `git stash` — the stash is shared with other people's worktrees of the same repository).
 
 Environment (important): no network. For every go command use exactly `export GOFLAGS=-mod=mod GOPROXY=off` and do NOT set GOTOOLCHAIN or GOSUMDB (the module needs go 1.26, which is resolved automatically from the module cache; the first build of cmd/staticcheck takes about a minute). The machine is shared: do not run more than one heavy command at a time, never `go test ./...` for the whole repository (it takes several minutes of all cores) unless you really need to, and use `-p 4`.
 
